@@ -15,6 +15,7 @@ func init() {
 	register("C15", "UnmarshalJSON leaves the target unchanged on error and never dereferences a nil receiver; MarshalJSON emits null only for the empty case and never marshals the receiver itself", func(c *core.Ctx) {
 		JSONMethods(c)
 		JSONQuote(c, "R-JSONQUOTE")
+		JSONDecDefault(c, "R-JSONDEC")
 	})
 }
 
